@@ -195,6 +195,23 @@ def in_range_inputs(prog, seed, batch=3, kind='in'):
     return x
 
 
+def perturb_parameters(mps, rng, weights=True):
+    """what training does between two looks at a model: PACT clipping thresholds, biases and
+    (optionally) weights move"""
+    g = torch.Generator().manual_seed(rng.randrange(2 ** 31))
+    nas_ids = {id(p) for p in mps.nas_parameters()}
+    with torch.no_grad():
+        for n, p in mps.named_parameters():
+            if n.endswith('clip_val'):
+                p.data.mul_(float(torch.empty(1).uniform_(0.5, 1.5, generator=g)))
+            elif id(p) in nas_ids or not weights:
+                continue
+            elif n.endswith('bias'):
+                p.data.add_(torch.randn(p.shape, generator=g) * 0.1)
+            elif n.endswith('weight'):
+                p.data.mul_(1.0 + 0.1 * torch.randn(p.shape, generator=g))
+
+
 def plain_layers(prog):
     return {op['name']: op for op in prog['ops'] if op['op'] in ('conv', 'lin') and not op.get('reuse')}
 
